@@ -249,6 +249,8 @@ pub struct RunOutcome {
     pub snapshot: Option<State>,
     pub panic: Option<PanicInfo>,
     pub build_error: Option<String>,
+    /// `Tracer::snapshot()` taken inside each publish callback (after the round was applied).
+    pub round_snapshots: Vec<State>,
 }
 
 /// Run the real tracer (Builder -> Tracer -> Strategy -> Channel<SimSocket> -> codecs -> State)
@@ -264,12 +266,22 @@ pub fn run_trace(cell: &Cell, p: &TraceParams, net: NetCfg, chooser: Chooser) ->
                 snapshot: None,
                 panic: None,
                 build_error: Some(format!("{e:?}")),
+                round_snapshots: vec![],
             };
         }
     };
     simnet::install(net, chooser);
     let src = cell.src();
-    let r = mc::catch(|| tracer.verif_run_with::<SimSocket, _>(src, |round| simnet::on_publish(round)));
+    let snaps: std::cell::RefCell<Vec<State>> = std::cell::RefCell::new(vec![]);
+    let want_snaps = SNAPSHOT_EACH_ROUND.with(std::cell::Cell::get);
+    let r = mc::catch(|| {
+        tracer.verif_run_with::<SimSocket, _>(src, |round| {
+            simnet::on_publish(round);
+            if want_snaps {
+                snaps.borrow_mut().push(tracer.snapshot());
+            }
+        })
+    });
     let (result, panic) = match r {
         Ok(Ok(())) => (Ok(()), None),
         Ok(Err(e)) => (Err(format!("{e:?}")), None),
@@ -283,7 +295,13 @@ pub fn run_trace(cell: &Cell, p: &TraceParams, net: NetCfg, chooser: Chooser) ->
         snapshot,
         panic,
         build_error: None,
+        round_snapshots: snaps.into_inner(),
     }
+}
+
+thread_local! {
+    /// When set, `run_trace` records `Tracer::snapshot()` after every published round.
+    pub static SNAPSHOT_EACH_ROUND: std::cell::Cell<bool> = const { std::cell::Cell::new(false) };
 }
 
 // ---------------------------------------------------------------------------------------------
